@@ -64,11 +64,25 @@ def build(env, reps):
                         for pat in ("00", "ff", "80"):
                             s.call("from_bytes", kind=kind, bytes="@z:%s:%d" % (pat, size), src="arbitrary")
                         if kem == 0x0020 and kind != "tag":
-                            for e in curves.X25519_SMALL_ORDER[:6]:
+                            for e in curves.X25519_SMALL_ORDER:
                                 s.call("from_bytes", kind=kind, bytes=e, src="arbitrary")
+                            # every non-canonical u-coordinate p .. 2^255-1, with and without bit 255
+                            P = 2**255 - 19
+                            for u in list(range(P, 2**255)) + [P - 1, P - 2, 2**255 - 20]:
+                                b = u.to_bytes(32, "little")
+                                s.call("from_bytes", kind=kind, bytes=b, src="arbitrary")
+                                s.call("from_bytes", kind=kind, bytes=b[:31] + bytes([b[31] | 0x80]), src="arbitrary")
                 else:
                     # NIST: accepted byte strings built by the reference
                     c = R.KEMS[kem].curve
+                    # arbitrary right-length strings: most are rejected (fine), whatever is accepted must re-serialize identically
+                    for _ in range(reps * 6):
+                        b = g.raw(size)
+                        if kind != "sk":
+                            b = b"\x04" + b[1:]
+                        elif rnd.random() < 0.5:
+                            b = bytes([b[0] & 0x01]) + b[1:] if kem == 0x0012 else b
+                        s.call("from_bytes", kind=kind, bytes=b, src="arbitrary_maybe")
                     if kind in ("pk", "enc"):
                         for _ in range(reps):
                             x, y = c.mul_base(rnd.randrange(1, c.n))
